@@ -272,7 +272,7 @@ def run(rep, tier):
     G = drivers.load()
     rep.rule = ("Hypothesis scripts: 1..4 requests (get/get_many/getnext/getbulk) on one session x per-request bursts of 0..5 "
                 "emissions (source request <= k, fault in deliver/drop/dup/hold/rid+-1/rid random/rid of other request/community/"
-                "version/msgID/user/engine id/truncate) x v1/v2c/v3(all levels) x nb(90%)/sync/async. Non-trivial = script has an "
+                "version/msgID/user/engine id/near-miss credentials (one octet appended, removed or changed)/ids equal modulo 2^31-2^32/truncate) x v1/v2c/v3(all levels; half of the v3 sessions learn their engine id by discovery) x nb(90%)/sync/async. Non-trivial = script has an "
                 "emission that is stale (source < k) or faulted; distinct by (cfg, script). Thorough adds exhaustive fault words.")
     rep.assumptions = ["FIFO delivery on loopback UDP", "ids are read from the wire, never predicted"]
 
